@@ -24,8 +24,7 @@ func main() { vlib.Run("C06", run) }
 type spec struct {
 	s        string
 	form     string // default | size | rabin | rabin-avg | rabin-mam | buzhash
-	min, max int    // bounds promised for all chunks but the last; max also for the last (see lastMax)
-	exact    bool   // size-N: all but last exactly N
+	min, max int    // bounds promised for all chunks but the last (size-N: min==max==N); max is also applied to the last chunk under its own class
 	avgLt48  bool   // rabin-N with N/3 < 16 (known defect trigger)
 }
 
@@ -35,7 +34,7 @@ const (
 )
 
 func sizeSpec(n int) spec {
-	return spec{s: fmt.Sprintf("size-%d", n), form: "size", min: n, max: n, exact: true}
+	return spec{s: fmt.Sprintf("size-%d", n), form: "size", min: n, max: n}
 }
 func rabinAvgSpec(n int) spec {
 	return spec{s: fmt.Sprintf("rabin-%d", n), form: "rabin-avg", min: n / 3, max: n + n/2, avgLt48: n/3 < 16}
@@ -75,7 +74,7 @@ func genSpec(r *vlib.Rand, stratum string) spec {
 		}
 	case "default":
 		d := int(chunk.DefaultBlockSize)
-		return spec{s: vlib.Pick(r, []string{"", "default"}), form: "default", min: d, max: d, exact: true}
+		return spec{s: vlib.Pick(r, []string{"", "default"}), form: "default", min: d, max: d}
 	case "rabin":
 		d := int(chunk.DefaultBlockSize)
 		return spec{s: "rabin", form: "rabin", min: d / 3, max: d + d/2}
